@@ -34,6 +34,7 @@ PROPS = {
     "C13": "vf.harness.C13",
     "C15": "vf.harness.C15",
     "C16": "vf.harness.C16",
+    "C18": "vf.harness.C18",
     "C14": "vf.harness.C14",
 }
 
